@@ -43,6 +43,8 @@ class Report:
         self.rule_docs: dict[str, str] = {}
         self.analysed: dict[str, set] = {"modules": set(), "functions": set(), "call_sites": set(), "siblings": set()}
         self.selftest: list[dict] = []
+        self.seeded: list[dict] = []  # thorough tier: /verif/seeded patches applied in memory
+        self.benign: dict = {}  # thorough tier: /verif/benign patches applied in memory
         self.notes: list[str] = []
         self.t0 = time.time()
         self._min_counts: dict[str, tuple[int, str]] = {}
@@ -198,6 +200,8 @@ class Report:
             "new_violations": [v.as_dict() for v in new],
             "analysis_errors": [f"{r}: {m}" for r, m in self.errors],
             "selftest": self.selftest,
+            "seeded_regression": self.seeded,
+            "benign_regression": self.benign,
             "notes": self.notes,
         }
         ev = {
